@@ -8,10 +8,39 @@ chosen moment, obtains the REAL bytes of the first pending write of every file t
 the pending tasks run one at a time over a sentinel, writes the chosen byte prefix of those bytes,
 drops the runtime (pending tasks are lost), and opens a new store with the same identity."""
 from props import C01 as base
-from props.C01 import NF, Trace, dedupe, model_term, show, IMPORTS, nontrivial, mk_case, gen_keys
+from props.C01 import NF, Trace, dedupe, mk_case, gen_keys
+from vpc.core import cstr, copt, cbool
+
+IMPORTS = "Require Import V.model.RecordStore V.model.StoreStartup."
+
+
+def model_term(c, o):
+    if c.get("kind") == "startup":
+        if o is None or "panic" in o or "error" in o:
+            return "false"
+        return "agree_startup %s %s %s %d %s %d" % (
+            cstr(c["cur"]), cbool(c.get("kill", False)), copt(c.get("before"), cstr), c["files"],
+            copt(o["after"], cstr), o["left"])
+    return base.model_term(c, o)
+
+
+def show(c, o):
+    if c.get("kind") == "startup":
+        return "startup %s %s (mkDisk %s (repeat (EmptyString, []) %d))" % (
+            cstr(c["cur"]), "SAfterTruncate" if c.get("kill") else "SDone", copt(c.get("before"), cstr), c["files"])
+    return base.show(c, o)
+
+
+def nontrivial(c, o):
+    if c.get("kind") == "startup":
+        return ("startup", c.get("before"), c["cur"], c.get("kill", False), c["files"] > 0)
+    return base.nontrivial(c, o)
 
 THEOREMS = ["shipped_build_encrypts_records", "restart_safe", "restart_durable", "completed_write_is_on_disk",
-            "restart_removed_stay_removed", "completed_delete_is_on_disk", "restart_safe_unencrypted_refuted"]
+            "restart_removed_stay_removed", "completed_delete_is_on_disk", "restart_safe_unencrypted_refuted",
+            "version_file_written_only_on_mismatch", "same_version_start_inert", "same_version_starts_inert",
+            "restart_durable_incl_startup", "restart_safe_incl_startup", "version_change_wipes",
+            "interrupted_version_change_converges", "rewrite_always_refuted"]
 RULE = ("histories of puts / overwrites / removes / evictions with the background tasks stopped at an arbitrary "
         "point (any number of single-task steps), followed by a crash that tears the pending write of 0-3 files at "
         "byte prefixes 0,1,2,3 (header boundary), 15-20 (tag boundary), ciphertext length -1/0/+1 and beyond "
@@ -113,6 +142,14 @@ def oracle(c, o):
         return [("panic", "the store panicked: %s" % o["panic"])]
     if c.get("kind") == "header":
         return []
+    if c.get("kind") == "startup":
+        # a start-up under the version recorded in the version file must never wipe the store nor touch the file
+        if c.get("before") == c["cur"]:
+            if o["left"] != c["files"] or o["after"] != c["cur"] or not o["done"]:
+                return [("same-version-start-wiped-or-rewrote", "start-up with version %r over a version file holding %r (killed at "
+                         "first write: %s): %d of %d record files left, version file now %r, completed: %s"
+                         % (c["cur"], c["before"], c.get("kill", False), o["left"], c["files"], o["after"], o["done"]))]
+        return []
     v = []
     t = Trace(c, o)
     disk = Disk(t.nk)
@@ -170,6 +207,9 @@ def oracle(c, o):
                 v.append(("undecryptable-file-kept", "step %d: after the restart the file of key %d is kept although it does not decrypt" % (i, f[0])))
         if not o["encrypt"]:
             v.append(("built-without-encryption", "the harness was built without encrypt-records"))
+        if post.get("vfile") != "1":
+            v.append(("version-file-damaged-by-same-version-start", "step %d: after %d killed and one completed same-version "
+                      "start-up the version file holds %r" % (i, op.get("kills", 0), post.get("vfile"))))
         disk.after_restart(post, t.nk)
     return dedupe(v)
 
@@ -233,6 +273,27 @@ def gen(ctx):
         cc = mk_case(rng, keys, vals, ops, 16384, rng.choice([1, 25]), "size-limit")
         cc["cfg"]["max_value_bytes"] = mvb
         cases.append(cc)
+    # start-up attempts killed at their first write (a real child process under `ulimit -f 0`) between the crash
+    # and the start that completes; and a second ordinary restart afterwards
+    for i in range(30 if quick else 400):
+        cc = base.gen_history(rng, rng.choice([6, 12, 20]), adversarial=False, caps=(2, 16384),
+                              weights=dict(put=40, remove=6, get=1, step=30, deliver=12, settle=8, crash=0), tag="killed-startup")
+        cc["ops"] += [{"op": "settle"}, {"op": "crash", "tears": [], "kills": rng.choice([1, 1, 2])}, {"op": "settle"},
+                      {"op": "crash", "tears": [], "kills": rng.choice([0, 1])}, {"op": "get", "k": 0}]
+        cases.append(cc)
+    for c in cases:
+        for op in c["ops"]:
+            if op["op"] == "crash" and "kills" not in op and rng.random() < 0.25:
+                op["kills"] = 1
+    # the start-up check on its own: version file absent / same / other / empty / torn prefix / longer
+    for before in (None, "1", "2", "", "12", "1\n", "10"):
+        for cur in ("1", "12"):
+            for kill in (False, True):
+                for files in (0, 3):
+                    sc = {"kind": "startup", "cur": cur, "kill": kill, "files": files}
+                    if before is not None:
+                        sc["before"] = before
+                    cases.append(sc)
     # every byte prefix of one pending write (overwrite of a completed record), a second file complete
     for rep in range(1 if quick else 12):
         keys = gen_keys(rng, 3, False)
